@@ -24,6 +24,9 @@ impl Rng {
     }
     /// uniform in 0..n (n > 0)
     pub fn below(&mut self, n: usize) -> usize {
+        if n == 0 {
+            return 0;
+        }
         (self.next() % n as u64) as usize
     }
     pub fn chance(&mut self, num: u64, den: u64) -> bool {
